@@ -22,6 +22,15 @@ def shards(tier):
         [{'name': 'doctest-suite', 'kind': 'doctests', 'modules': []}]
 
 
+def gs1_class(items):
+    """Class of a generated element string: decimal values and variable-length dates have recorded codec defects (C16)."""
+    for _ai, props, _raw in items:
+        t = props.get('type', 'str')
+        if t == 'decimal' or (t == 'date' and props['format'] not in ('N6', 'N10')):
+            return 'generated-element-string:decimal-or-variable-date-values'
+    return 'generated-element-string:plain-values'
+
+
 def check_one(name, mod, x, opts, cls, viols):
     o1 = C.outcome(mod.validate, x, **opts)
     if o1[0] != 'ok' or not isinstance(o1[1], str):
@@ -32,6 +41,15 @@ def check_one(name, mod, x, opts, cls, viols):
     def add(clause, what):
         # the trigger keeps a finding about exotic characters from hiding one about plain input
         trigger = 'plain-input' if all('!' <= ch <= '~' for ch in x.strip(' ')) else 'blank-control-or-non-ascii-inside'
+        if name == 'gs1_128':
+            # validate() does not hold element strings against their declared formats, and decimal / padded values
+            # have recorded round-trip defects (C16): keep those apart from well-formed strings of plain values
+            if cls.startswith('generated-element-string'):
+                trigger = cls
+            elif cls in ('identity', 'lower', 'swapcase', 'mixedcase', 'surround', 'doctest'):
+                trigger = 'trivially-decorated-element-string'
+            else:
+                trigger = 'characters-inserted-into-element-string'
         sig = 'C02|%s|%s|%s' % (name, clause, trigger)
         if sig in viols:
             viols[sig]['count'] += 1
@@ -126,7 +144,7 @@ def work(shard, tier):
                     x = c16.build(items, sep, False, rng)
                     if x is None:
                         continue
-                    o1, o2 = check_one(name, mod, x, {'separator': sep} if sep else {}, 'generated-element-string', viols)
+                    o1, o2 = check_one(name, mod, x, {'separator': sep} if sep else {}, gs1_class(items), viols)
                     evals += 1
                     if o2 is not None:
                         evals += 1
@@ -152,7 +170,7 @@ def work(shard, tier):
                 x = c16.build(items, sep, rng.random() < 0.3, rng)
                 if x is None:
                     continue
-                o1, o2 = check_one(name, mod, x, {'separator': sep} if sep else {}, 'generated-element-string', viols)
+                o1, o2 = check_one(name, mod, x, {'separator': sep} if sep else {}, gs1_class(items), viols)
                 evals += 1
                 if o2 is not None:
                     evals += 1
